@@ -10,7 +10,11 @@ for d in sorted(glob.glob(os.path.join(V, "seeded", "*", ""))):
         continue
     m = json.load(open(mp))
     det, cur = [], None
-    dp = os.path.join(d, "detection.txt")
+    # detection.full.txt (when present) is the record of the property's full quick command; detection.txt then is a later
+    # re-run of the reporting run only, made to refresh the replay files after the item numbering had changed
+    dp = os.path.join(d, "detection.full.txt")
+    if not os.path.exists(dp):
+        dp = os.path.join(d, "detection.txt")
     if os.path.exists(dp):
         for l in open(dp):
             g = re.match(r"== vcheck (\S+) (\S+): exit (\d+) in (\d+)s", l)
